@@ -451,6 +451,52 @@ theorem clip_is_translation (r : Rct K) (cv : Canvas K) :
     (cv.clip (opsK tr cd) r).layers = (cv.transform (opsK tr cd) (Matrix.Translate C15M.ident (-r.x0) (-r.y0))).layers ∧
     (cv.clip (opsK tr cd) r).W = r.x1 - r.x0 ∧ (cv.clip (opsK tr cd) r).H = r.y1 - r.y0 := ⟨rfl, rfl, rfl⟩
 
+/-- How far `Fit` lets a stroke reach from the path (the repaired code, 79f3f8c): exactly half the
+width for butt/round caps with bevel/round joins (unchanged); at least `max(Limit, 1.001)` half
+widths for a miter or arcs join with a finite limit (conservative: the full miter tip lies at most
+`Limit` half widths from its vertex); at least √2 half widths for square caps (their corners). -/
+theorem stroke_extent (s : Style K) :
+    ((opsK tr cd).isSquareCap s.cap = false → (opsK tr cd).joinLimit s.join = none →
+        strokeExtent (opsK tr cd) s = s.width / 2) ∧
+    (∀ L, (opsK tr cd).joinLimit s.join = some L → max L (1001 / 1000) * s.width / 2 ≤ strokeExtent (opsK tr cd) s) ∧
+    ((opsK tr cd).isSquareCap s.cap = true → s.width / 2 * Env.sqrt 2 ≤ strokeExtent (opsK tr cd) s) ∧
+    (1 ≤ (Env.sqrt 2 : K) → 0 ≤ s.width → s.width / 2 ≤ strokeExtent (opsK tr cd) s) := by
+  refine ⟨?_, ?_, ?_, ?_⟩
+  · intro h1 h2
+    simp only [strokeExtent, h1, h2]
+    rfl
+  · intro L hL
+    simp only [strokeExtent, hL]
+    exact le_max_right _ _
+  · intro h1
+    simp only [strokeExtent, h1]
+    cases (opsK tr cd).joinLimit s.join with
+    | none => exact le_refl _
+    | some L => exact le_max_left _ _
+  · intro h2 hw
+    have hhw : 0 ≤ s.width / 2 := div_nonneg hw (by norm_num)
+    have hsq : s.width / 2 ≤ s.width / 2 * Env.sqrt 2 := by nlinarith
+    simp only [strokeExtent]
+    cases hc : (opsK tr cd).isSquareCap s.cap <;> cases hj : (opsK tr cd).joinLimit s.join <;> simp only [if_true, if_false, Bool.false_eq_true]
+    · exact le_refl _
+    · exact le_max_left _ _
+    · exact hsq
+    · exact le_trans hsq (le_max_left _ _)
+
+/-- The bounds `Fit` uses for a stroked path contain every point whose coordinates are within
+`strokeExtent` of a point of the path's bounds — in particular every miter tip (≤ Limit·hw from a
+vertex) and every square-cap corner (≤ √2·hw from an end point). -/
+theorem stroke_reach_in_bounds (p : PathRef K) (s : Style K) (hs : s.hasStroke (opsK tr cd) = true)
+    (q pt : Pt K) (hqx : p.bounds.x0 ≤ q.x ∧ q.x ≤ p.bounds.x1) (hqy : p.bounds.y0 ≤ q.y ∧ q.y ≤ p.bounds.y1)
+    (hx : |pt.x - q.x| ≤ strokeExtent (opsK tr cd) s) (hy : |pt.y - q.y| ≤ strokeExtent (opsK tr cd) s) :
+    (itemBounds (opsK tr cd) (.path p s)).x0 ≤ pt.x ∧ pt.x ≤ (itemBounds (opsK tr cd) (.path p s)).x1 ∧
+    (itemBounds (opsK tr cd) (.path p s)).y0 ≤ pt.y ∧ pt.y ≤ (itemBounds (opsK tr cd) (.path p s)).y1 := by
+  simp only [itemBounds, hs, if_true]
+  have hx' := abs_le.mp hx
+  have hy' := abs_le.mp hy
+  show p.bounds.x0 - _ ≤ pt.x ∧ pt.x ≤ p.bounds.x1 + _ ∧ p.bounds.y0 - _ ≤ pt.y ∧ pt.y ≤ p.bounds.y1 + _
+  refine ⟨by linarith [hqx.1, hx'.1], by linarith [hqx.2, hx'.2], by linarith [hqy.1, hy'.1], by linarith [hqy.2, hy'.2]⟩
+
 /-- full statement of fit_inside: every layer with non-empty bounds ends up inside the margins -/
 def fit_inside_statement : Prop :=
   ∀ (c : Ctx K) (μ : K),
@@ -462,8 +508,9 @@ def fit_inside_statement : Prop :=
         μ ≤ (Matrix.Dot k.m p).x ∧ (Matrix.Dot k.m p).x ≤ c'.cv.W - μ ∧
         μ ≤ (Matrix.Dot k.m p).y ∧ (Matrix.Dot k.m p).y ≤ c'.cv.H - μ
 
-/-- After `Fit(μ)` every point of the bounds (path bounds ± half the stroke width, text bounds,
-image rectangle) of every layer, transformed by the layer's new matrix, lies in
+/-- After `Fit(μ)` every point of the bounds (path bounds ± `strokeExtent` — half the stroke width,
+√2 half widths with square caps, at least `max(Limit,1.001)` half widths with miter/arcs joins, see
+`stroke_extent` and `stroke_reach_in_bounds` —, text bounds, image rectangle) of every layer, transformed by the layer's new matrix, lies in
 `[μ, W−μ] × [μ, H−μ]` of the new canvas size. Proved for canvases in which no layer's transformed
 bounds degenerate to an Epsilon-thin rectangle (such a layer makes `rect.Empty()` true and is
 overwritten by the next one: content that is thinner than 1e-10 mm). -/
